@@ -631,3 +631,22 @@ def _h_anyall(name):
 
 HANDLERS['any'] = _h_anyall('any')
 HANDLERS['all'] = _h_anyall('all')
+
+
+def h_repeat(ip, st, args, kw, node):
+    x = args[0] if args else NONE
+    reps = args[1] if len(args) > 1 else kw.get('repeats')
+    if isinstance(x, Tup) and isinstance(reps, Poly) and reps.const_value() is not None and 'axis' not in kw and len(args) <= 2 \
+            and all(isinstance(i, (Poly, Const)) for i in x.items) and 0 < int(reps.const_value()) * len(x) <= 16:
+        out = []
+        for i in x.items:
+            out += [i] * int(reps.const_value())
+        return Tup(out, 'vec')
+    return app('repeat', *[a if isinstance(a, (Poly, Tup, Const)) else P(a) for a in args], **kw)
+
+
+HANDLERS['numpy.repeat'] = h_repeat
+for _op, _nm in (('add', 'add'), ('sub', 'sub'), ('mul', 'mul'), ('truediv', 'div'), ('floordiv', 'floordiv'), ('pow', 'pow'),
+                 ('mod', 'mod')):
+    HANDLERS['operator.' + _op] = (lambda nm: (lambda ip, st, a, kw, node: arith(nm, a[0], a[1])))(_nm)
+HANDLERS['operator.neg'] = lambda ip, st, a, kw, node: arith('mul', Poly.const(-1), a[0])
